@@ -51,7 +51,7 @@ def check_duplicate_impl(self: "any", fcp: "ref:FcpV2", left: "ref:Impl") -> "re
 
 INLINE = ["fcp.error:error", "fcp.error:FcpError.__init__", "fcp.error:FcpError.results_in", "fcp.specs.v2:FcpV2.get_types",
           "fcp.verifier:make_general_verifier", "fcp.verifier:Verifier.__init__", "fcp.verifier:Verifier.register",
-          "fcp.verifier:register", "fcp.verifier:Verifier.verify", "fcp_dbc.generator:Generator.register_checks",
+          "fcp.verifier:register", "fcp_dbc.generator:Generator.register_checks",
           "fcp_dbc.generator:Generator.__init__", "fcp_can_c.generator:Generator.register_checks",
           "fcp_can_c.generator:Generator.__init__"]
 
